@@ -130,6 +130,19 @@ class WriterHarness(thrx.Harness):
                   carbon.writer.reactor, instrumentation.increment, state.database)
     carbon.util.time = s.time
     carbon.util.sleep = s.sleep
+    if p.get('clock_jumps'):
+      # a real clock moves between two reads inside one operation: when the token bucket's blocking drain reads the
+      # clock again after peek(), the explorer may let two token-times pass first (the thread was descheduled)
+      import sys as _sys
+
+      def util_time():
+        t = s.time()
+        f = _sys._getframe(1)
+        if f.f_code.co_name == 'drain' and 'self' in f.f_locals and s.choose(2, ('clock-jump', 'drain')):
+          s.now += 2.0 / f.f_locals['self'].fill_rate
+          return s.now
+        return t
+      carbon.util.time = util_time
     carbon.cache.time = self.vt
     carbon.writer.time = self.vt
     self.saved_choice = carbon.cache.choice
@@ -315,7 +328,11 @@ class WriterHarness(thrx.Harness):
         if dropped != 1:
           return ('double-account', 'batch of %s counted %d times as dropped' % (m, dropped))
       elif errs:
-        pass      # an exception escaped the pass while this batch was in flight: reported by writeForever
+        # an exception escaped the pass while this batch was in flight and writeForever reported it.  The statement
+        # allows that disposition "when the backend failed" - not for an exception of the writer's own making
+        if not any(e[0] in ('exists', 'create', 'write') and e[2] == 'raise' for e in b['events']):
+          return ('lost-without-backend-failure', 'batch %r drained for %s was lost to an exception although no backend call '
+                  'failed (events after the drain: %r)' % (pts, m, b['events'][:6]))
       else:
         return ('silent-drop', 'batch %r drained for %s was neither written nor counted as dropped nor '
                 'reported as an error (events after the drain: %r)' % (pts, m, b['events'][:6]))
